@@ -14,7 +14,7 @@ import re
 
 from ..emit import EmitterCfg, emissions_of
 from ..model import AnalysisError, dotted
-from ..pse import NORMAL, Enumerator
+from ..pse import NORMAL, Cfg, Enumerator
 from ..reader import find_loops
 
 LEVEL_TEXT = (
@@ -813,24 +813,76 @@ def run(ctx) -> None:
     bf = wm.functions.get("_parse_event_buffer")
     if bf is None:
         raise AnalysisError("anchor vanished: winapi._parse_event_buffer")
-    skip = None  # local that holds <record>.NextEntryOffset
-    for n in ast.walk(bf.node):
-        if isinstance(n, ast.Assign) and isinstance(n.value, ast.Attribute) and n.value.attr == "NextEntryOffset" and isinstance(n.targets[0], ast.Name):
-            skip = n.targets[0].id
-    adv_slice = adv_count = stops = False
-    for n in ast.walk(bf.node):
-        if isinstance(n, ast.Assign) and isinstance(n.value, ast.Subscript) and isinstance(n.value.slice, ast.Slice):
-            lo = n.value.slice.lower
-            if isinstance(lo, ast.Name) and lo.id == skip and isinstance(n.targets[0], ast.Name) and ast.unparse(n.value.value) == n.targets[0].id:
-                adv_slice = True
-        if isinstance(n, ast.AugAssign) and isinstance(n.op, ast.Sub) and isinstance(n.value, ast.Name) and n.value.id == skip:
-            adv_count = True
-        if isinstance(n, ast.If) and isinstance(n.test, ast.Compare) and isinstance(n.test.left, ast.Name) and n.test.left.id == skip and isinstance(n.test.ops[0], (ast.LtE, ast.Lt, ast.Eq)) and any(isinstance(x, ast.Break) for x in n.body):
-            stops = True
-    src = ast.unparse(bf.node)
-    ctx.check(skip is not None and adv_slice and adv_count, RD, "advances by NextEntryOffset", "the buffer walk does not advance (buffer and remaining count) by the record's NextEntryOffset", bf.loc)
-    ctx.check(stops, RD, "stops at the last record (NextEntryOffset == 0)", "the walk does not stop when NextEntryOffset is 0: the last record is decoded forever / again", bf.loc)
-    ctx.check("FileName.offset" in src and ".FileNameLength" in src and "decode('utf-16')" in src, RD, "name = FileNameLength bytes at FileName.offset, UTF-16", "the file name is not taken as FileNameLength bytes at the FileName offset decoded as UTF-16", bf.loc)
+    # the walk is the while loop of _parse_event_buffer or of a module-level function it draws its records from; its body paths are
+    # enumerated with the module's helper functions inlined, so every quantity is a term over the loop's own buffer / count
+    class _WalkCfg(Cfg):
+        def inline(self, call, ft, rc, st):
+            if isinstance(call.func, ast.Name) and st.module is not None and call.func.id in st.module.functions and call.func.id not in st.env:
+                fi_ = st.module.functions[call.func.id]
+                if not any(isinstance(n, (ast.Yield, ast.YieldFrom)) for n in ast.walk(fi_.node)):
+                    return fi_, st.selfcls, None
+            return None
+
+    cands, seen_f, todo = [], set(), ["_parse_event_buffer"]
+    while todo:
+        fn_ = todo.pop(0)
+        if fn_ in seen_f or fn_ not in wm.functions:
+            continue
+        seen_f.add(fn_)
+        if any(isinstance(n, ast.While) for n in ast.walk(wm.functions[fn_].node)):
+            cands.append(wm.functions[fn_])
+        todo += [n.func.id for n in ast.walk(wm.functions[fn_].node) if isinstance(n, ast.Call) and isinstance(n.func, ast.Name)]
+    walks = []
+    for cf in cands:
+        for L in find_loops(Enumerator(_WalkCfg(P)).run(cf), lambda e: e.extra.get("kind") == "while"):
+            if any(".NextEntryOffset" in x.text for b_ in L.extra["paths"] for x in b_.evs):
+                walks.append((cf, L))
+    if not walks:
+        raise AnalysisError("anchor vanished: the while loop of winapi._parse_event_buffer that walks the records by NextEntryOffset")
+    adv_ok = stop_ok = name_ok = True
+    why_adv = why_stop = why_name = ""
+    ncont = nleave = 0
+    for cf, L in walks:
+        for b_ in L.extra["paths"]:
+            if b_.outcome[0] == "raise":
+                continue
+            recs = {m_.group(0) for x in b_.evs for m_ in re.finditer(r"ctypes\.cast\((\w+)@L\d+, LPFNI\)\[0\]", x.text)}
+            if len(recs) != 1:
+                adv_ok, why_adv = False, f"the record is not read as ctypes.cast(<buffer>, LPFNI)[0] of the loop's buffer ({sorted(recs)})"
+                continue
+            REC = recs.pop()
+            buf = re.match(r"ctypes\.cast\((\w+)@", REC).group(1)
+            NEO = f"{REC}.NextEntryOffset"
+            c_ = b_.conds()
+            positive = (
+                any(c_.get(f"{NEO} {op}") is False for op in ("<= 0", "== 0", "< 1"))
+                or any(c_.get(f"{NEO} {op}") is True for op in ("> 0", ">= 1"))
+                or c_.get(NEO) is True
+            )
+            # the name: FileNameLength bytes at the FileName offset of this record, decoded as UTF-16
+            want_a = f"ctypes.string_at(ctypes.addressof({REC}) + FileNotifyInformation.FileName.offset, {REC}.FileNameLength).decode('utf-16')"
+            want_b = f"ctypes.string_at(FileNotifyInformation.FileName.offset + ctypes.addressof({REC}), {REC}.FileNameLength).decode('utf-16')"
+            outs = [x for x in b_.evs if x.kind == "yield" or (x.kind == "call" and x.extra.get("func", "").endswith(".append"))]
+            if not outs or not all(want_a in x.text or want_b in x.text for x in outs):
+                name_ok, why_name = False, "a record is handed on whose name is not string_at(addressof(record) + FileName.offset, record.FileNameLength).decode('utf-16')"
+            if b_.outcome is NORMAL or b_.outcome == ("continue",):
+                ncont += 1
+                asg = {x.extra.get("name"): x.text for x in b_.evs if x.kind == "assign"}
+                adv_buf = re.fullmatch(rf"{buf} = {buf}@L\d+\[{re.escape(NEO)}:\]", asg.get(buf, "")) is not None
+                cnt = [n_ for n_, t_ in asg.items() if re.fullmatch(rf"{n_} = {n_}@L\d+ - {re.escape(NEO)}", t_)]
+                if not adv_buf or len(cnt) != 1 or cnt[0] not in L.text:
+                    adv_ok, why_adv = False, f"an iteration that goes on does not advance the buffer by `{NEO}` and the remaining count (the loop's own test variable) by the same amount"
+                if not positive:
+                    stop_ok, why_stop = False, "an iteration goes on without having established that NextEntryOffset is positive: the last record (NextEntryOffset == 0) is decoded again, forever"
+            else:
+                nleave += 1
+    if ncont == 0:
+        adv_ok, why_adv = False, "no iteration of the walk goes on to a next record"
+    if nleave == 0:
+        stop_ok, why_stop = False, "no iteration of the walk leaves the loop"
+    ctx.check(adv_ok, RD, "advances by NextEntryOffset", why_adv or "the buffer walk does not advance (buffer and remaining count) by the record's NextEntryOffset", bf.loc)
+    ctx.check(stop_ok, RD, "stops at the last record (NextEntryOffset == 0)", why_stop or "the walk does not stop when NextEntryOffset is 0: the last record is decoded forever / again", bf.loc)
+    ctx.check(name_ok, RD, "name = FileNameLength bytes at FileName.offset, UTF-16", why_name or "the file name is not taken as FileNameLength bytes at the FileName offset decoded as UTF-16", bf.loc)
     ctx.assumptions += ["documented semantics of ReadDirectoryChangesW and FSEvents", "os.path.isdir reflects the entry's kind at translation time (Windows)"]
 
 
